@@ -140,12 +140,14 @@ func (m *didMonitor) AfterTx(x *Exec, tx *TxInfo, result string) {
 			msg := pm.Msg.(*didtypes.MsgUpdateDIDRequest)
 			if !validProof(authKeys(before.Document, msg.VerificationMethodId), msg.Document, before.Sequence, msg.Signature) {
 				x.Flag("C03-update-proof", "update accepted without a valid proof (current authentication key, new content, current sequence)")
+				x.Flag("C11-foreign-proof", "the entry under "+did+" was replaced on a proof that no key registered under that DID made: the identifier is occupied with someone else's document")
 			}
 			cur[did] = didtypes.NewDIDDocumentWithSeq(msg.Document, before.Sequence+1)
 		case "did.Deactivate":
 			msg := pm.Msg.(*didtypes.MsgDeactivateDIDRequest)
 			if !validProof(authKeys(before.Document, msg.VerificationMethodId), &didtypes.DIDDocument{Id: did}, before.Sequence, msg.Signature) {
 				x.Flag("C03-deactivate-proof", "deactivation accepted without a valid proof")
+				x.Flag("C11-foreign-proof", "the entry under "+did+" was deactivated on a proof that no key registered under that DID made")
 			}
 			cur[did] = didtypes.NewDIDDocumentWithSeq(&didtypes.DIDDocument{}, before.Sequence+1)
 			m.tombstoned[did] = true
